@@ -1092,5 +1092,7 @@ def run(chk: Check, args):
         'the server answers GetPeerAddress while its connection is alive (the property does not quantify over a silent server)',
         'stimuli are applied at quiescent points of the event loop; sub-slot interleavings are covered by the '
         'fine-grained design model (TLC) but are not replayed on the code',
+        'reading of "returns or raises" for a cancelled request: it may leave connections that were completely established '
+        'and announced through PeerInitializedEvent (ownership passed to the listeners), nothing else',
         'the Network is used as SoulSeekClient uses it (initialize(), server reader started), without the other managers',
     ]
